@@ -24,3 +24,4 @@ package main
 //@   at call Put: assert [C18 runput.file-sends-checked-bytes] putArgs.File != "" ==> (bytes(arg_value) == putText(diskData(disk, putArgs.File)) && !putRefused(diskData(disk, putArgs.File)) && (len(arg_value) != 0 || putArgs.EmptyOK))
 //@   at call Put: assert [C18 runput.pipe-sends-checked-bytes] (putArgs.File == "" && !stdinIsTerminal) ==> (bytes(arg_value) == putText(lastReadBytes) && !putRefused(lastReadBytes) && (len(arg_value) != 0 || putArgs.EmptyOK))
 //@   at call Put: assert [C18 runput.name] arg_name == name
+//@   at call ReadAll: assert [C18 runput.reads-all-of-standard-input] arg_r == os.Stdin
